@@ -1071,7 +1071,7 @@ pub fn generate(ctx: &mut Ctx) {
     corners(ctx, &ts);
 
     // 2. random cases, every algorithm in turn (ten kinds)
-    let per_algo = ctx.budget(45, 250);
+    let per_algo = ctx.budget(100, 250);
     let max_n = 300;
     for _ in 0..per_algo {
         for which in 0..10 {
@@ -1084,7 +1084,12 @@ pub fn generate(ctx: &mut Ctx) {
     //    the Rcb scan, par_sort, par_chunks …): the data-parallel algorithms only
     for _ in 0..ctx.budget(2, 12) {
         for which in [0usize, 1, 2, 3, 4, 8] {
-            let n = 4500 + ctx.rng.usize(5000);
+            let mut n = 4500 + ctx.rng.usize(5000);
+            if which == 3 {
+                // z_curve_partition_recurse recomputes the region of *every* point in every
+                // call: quadratic in n, so the large ZCurve inputs stay just above 4096
+                n = 4200 + n % 600;
+            }
             ctx.count("large_cases");
             one_random_case(ctx, which, n, true, &ts);
         }
